@@ -801,6 +801,12 @@ hwloc__xml_import_object(hwloc_topology_t topology,
               state->global->msgprefix);
     goto error_with_object;
   }
+  if (!parent && obj->type != HWLOC_OBJ_MACHINE) {
+    if (hwloc__xml_verbose())
+      fprintf(stderr, "%s: root object must be a Machine instead of %s\n",
+              state->global->msgprefix, hwloc_obj_type_string(obj->type));
+    goto error_with_object;
+  }
 
   if (parent) {
     if (parent->type == HWLOC_OBJ_PU && hwloc_obj_type_is_normal(obj->type)) {
